@@ -48,14 +48,14 @@ func cellMap(run *bsRun) []hx.Sx {
 			key := tk.String() + " | " + k.Row.String() + " | " + k.Col.String()
 			cmp := hx.L()
 			if cell.Baseline != nil {
-				cmp = hx.L(hx.F64(cell.Comparison.P), hx.I(cell.Comparison.N1), hx.I(cell.Comparison.N2), f64s(cell.Baseline.Sample.Values))
+				cmp = hx.L(hx.F64(cell.Comparison.P), hx.I(cell.Comparison.N1), hx.I(cell.Comparison.N2), bsF64s(cell.Baseline.Sample.Values))
 			}
 			var warns []string
 			for _, w := range cell.Sample.Warnings {
 				warns = append(warns, w.Error())
 			}
 			sort.Strings(warns)
-			ents = append(ents, ent{key, hx.L(hx.S(key), f64s(cell.Sample.Values), hx.F64(cell.Summary.Center),
+			ents = append(ents, ent{key, hx.L(hx.S(key), bsF64s(cell.Sample.Values), hx.F64(cell.Summary.Center),
 				hx.F64(cell.Summary.Lo), hx.F64(cell.Summary.Hi), cmp, hx.SList(warns))})
 		}
 	}
